@@ -30,9 +30,12 @@ fn run(cx: &mut Cx, mode: Mode) {
     let ideal: Shared = Rc::new(RefCell::new(Ideal::default()));
     let issuer = cx.node("issuer");
     let holder = cx.node("holder");
-    let n = if mode == Mode::Complete { 1 + cx.ch.choose("sessions", 3) } else { 1 };
+    let n = if mode == Mode::Complete { 1 + cx.ch.choose("sessions", 3) } else { 2 };
     for s in 0..n {
-        session(cx, mode, s, issuer, holder, ideal.clone());
+        // in the binding check session 0 is an honest warm-up of the same nodes (so that whatever
+        // they cached for another shape / suite / header precedes the corrupted deliveries)
+        let m = if mode == Mode::Sound && s == 0 { Mode::Complete } else { mode };
+        session(cx, m, s, issuer, holder, ideal.clone());
     }
     cx.run();
 }
